@@ -21,12 +21,18 @@ class PathFlow(Flow):
     def __init__(self, fn, path, transparent=()):
         super().__init__(fn, transparent)
         pos = {b: i for i, b in enumerate(path)}
+        self.pos = pos
+        self.all_defs = {}   # locals defined more than once on the path: every definition, in path order (Sym reads the one that precedes the reader)
         for l in list(self.defs):
             ds = [d for d in self.defs[l] if d[1] in pos]
             if len(ds) > 1:
-                ds.sort(key=lambda d: (pos[d[1]], d[2] if d[0] == "stmt" else 1 << 20))
+                ds.sort(key=self.order)
+                self.all_defs[l] = ds
                 ds = [ds[-1]]
             self.defs[l] = ds
+
+    def order(self, d):
+        return (self.pos[d[1]], d[2] if d[0] == "stmt" else 1 << 20)
 
 
 class SizeSym(Sym):
